@@ -89,7 +89,8 @@ def run(ctx):
         n = 0
         for bb, s in sorted(ev.sites.items()):
             c = s.raw.get("callee") or {}
-            if c.get("trait") in ("BlsSignatureBasic", "BlsSignatureMessageAugmentation", "BlsSignaturePop") or s.callee[0] == "PublicKeyShare<C>::verify":
+            via_fnptr = bool(s.alt_callees) and all(a_[0].split("::")[0] in ("BlsSignatureBasic", "BlsSignatureMessageAugmentation", "BlsSignaturePop") for a_ in s.alt_callees)
+            if c.get("trait") in ("BlsSignatureBasic", "BlsSignatureMessageAugmentation", "BlsSignaturePop") or s.callee[0] == "PublicKeyShare<C>::verify" or via_fnptr:
                 n += 1
                 for i, a in enumerate(s.args):
                     root = _proj_or_checked(a)
@@ -136,6 +137,14 @@ def _proj_or_checked(a):
     r = F.projection_root(a)
     if r:
         return r[0].a[1] + r[1]
+    # the payload of whichever variant the value has: phi of projections of one parameter
+    b = a
+    while b.op in ("ref", "deref"):
+        b = b.a[0]
+    if b.op == "phi":
+        rs = [F.projection_root(x) for x in b.a[0]]
+        if all(rs) and len({x[0].a[1] for x in rs}) == 1:
+            return rs[0][0].a[1] + " (payload of its variant)"
     # (Try::branch(Share::as_group_element(&proj)) as Continue).0
     t = a
     if t.op == "field" and t.a[0].op == "downcast" and t.a[0].a[1] == "Continue":
